@@ -377,6 +377,7 @@ pub proof fn lemma_snapc_push(snap: Map<PV, Snap>, c0: Map<PV, Arc<String>>, tr:
 
 // ---- termination measure of the repaired scan: 2 * |U \ plugin files| + |U \ processed|  (a mark may un-process one file)
 pub open spec fn scan_measure(u: Set<PV>, pl: Set<PV>, pset: Set<PV>) -> nat { 2 * todo(u, pl) + todo(u, pset) }
+//@tags C12
 pub proof fn lemma_todo_remove(u: Set<PV>, a: Set<PV>, c: PV)
     ensures todo(u, a.remove(c)) <= todo(u, a) + 1
 {
@@ -386,6 +387,7 @@ pub proof fn lemma_todo_remove(u: Set<PV>, a: Set<PV>, c: PV)
         assert(u.difference(a.remove(c)) =~= u.difference(a));
     }
 }
+//@tags C12
 /// marking h (a path of the universe that was no plugin file) and un-processing it lowers the measure
 pub proof fn lemma_measure_mark(u: Set<PV>, pl: Set<PV>, pset: Set<PV>, h: PV)
     requires u.contains(h), !pl.contains(h)
